@@ -34,6 +34,27 @@
 //! that shape the predicate is: each partition returns ≤ min(k, n_p) of its own rows, sorted, no
 //! duplicates, and the union of the partitions contains a valid (tie-aware) global top-k.
 //!
+//! Genuine findings (open entries in /verif/known_findings.json, regression cases under
+//! /verif/regressions/C08/c08/, proposed repair /verif/fixes/C08-topk-filter-sort-order-mismatch.diff —
+//! verified with mutrun: seeds 0-2 pass with the exclusions switched off through VF_C08_NO_KNOWN=1):
+//!   1. `topk-filter:struct-key:child-null-order` — TopK (SortExec + fetch) pre-filters every later
+//!      batch with a predicate built from its heap (`col < threshold` …). For struct keys the
+//!      comparison kernels order NULL *fields* in one fixed way, not per the key's options: with ASC
+//!      NULLS LAST / DESC NULLS FIRST rows sorting before the threshold are dropped. SQL repro: two
+//!      single-row inserts {a:1,b:NULL}, {a:NULL,b:NULL}; `ORDER BY s DESC NULLS FIRST` lists
+//!      {NULL,NULL} first, `… LIMIT 1` returns {1,NULL}.
+//!   2. `topk-filter:float-key:signed-zero` — same predicate: `-0.0 = 0.0` for the kernels, but the
+//!      sort order separates them (`ORDER BY x DESC` → 0.0, -0.0; `… LIMIT 1` → -0.0). Low severity
+//!      (SQL-equal values), same root cause.
+//! The generator excludes exactly these shapes (`known_signature`, counted in `known_excluded`).
+//!
+//! Sensitivity probes (mutrun, quick tier, all detected):
+//!   * topk/mod.rs `batch_prefix_exceeds_heap_boundary`: `>` → `>=` (early termination on an equal
+//!     sorted prefix) → VIOLATION "position 0 of the top-1 holds keys … reference has …" after 771 cases.
+//!   * sorts/merge.rs `update_loser_tree`, round-robin branch `(None, _)`: dropped the
+//!     `update_winner` call (exhausted cursor stays winner) → VIOLATION "1 rows returned, 2 expected"
+//!     on the first case.
+//!
 //! Deviations from DESIGN.md: fetch = 0 is only generated for the paths that accept it
 //! (SortPreservingMergeExec, pass-through SortExec, PartialSortExec); `SortExec::with_fetch(Some(0))`
 //! on unsorted input reaches `TopKHeap::new` which asserts `k > 0` — the SQL planner never builds
@@ -138,10 +159,10 @@ fn opts_strategy(tier: Tier, spill: bool) -> BoxedStrategy<ExecOpts> {
     (
         batch,
         threads,
-        prop_oneof![Just(6_000u32), Just(12_000u32), Just(24_000u32), Just(48_000u32), Just(100_000u32), Just(400_000u32)],
+        prop_oneof![Just(3_000u32), Just(5_000u32), Just(8_000u32), Just(12_000u32), Just(20_000u32), Just(40_000u32), Just(100_000u32)],
         any::<bool>(),
         prop_oneof![Just(0u8), Just(2u8), Just(3u8)],
-        prop_oneof![Just(0u32), Just(1024u32), Just(4096u32), Just(16384u32)],
+        prop_oneof![2 => Just(0u32), 2 => Just(512u32), 1 => Just(2048u32), 1 => Just(8192u32)],
         prop_oneof![Just(0u32), Just(1024u32), Just(1_048_576u32)],
         prop_oneof![4 => Just("uncompressed"), 1 => Just("lz4_frame"), 1 => Just("zstd")],
     )
@@ -467,7 +488,7 @@ impl Property for C08 {
         C08::case_strategy(tier)
     }
     fn budget(&self, tier: Tier) -> Budget {
-        Budget::new(tier.pick(6_000, 120_000), tier.pick(8, 16)).min_nontrivial(tier.pick(800, 10_000)).case_timeout(180)
+        Budget::new(tier.pick(6_000, 60_000), tier.pick(8, 16)).min_nontrivial(tier.pick(800, 10_000)).case_timeout(180)
     }
     fn rule(&self) -> String {
         "rows with 1-3 typed sort keys (small duplicate/NULL-heavy domains incl. NaN, ±0.0, ±inf, type boundaries), partitions, batch cuts, encodings; operator drawn from SortExec / TopK / SortPreservingMergeExec / PartialSortExec / PartitionedTopKExec / memory-limited external sort; \
@@ -686,6 +707,9 @@ fn run_case(case: &Case) -> CaseResult {
     let spills = metric_sum(&plan, "spill_count");
     if spills > 0 {
         labels.push("spilled".into());
+        if case.opts.fan_in > 0 && spills > case.opts.fan_in as usize {
+            labels.push("multi-level-merge".into());
+        }
         labels.push(format!("spills={}", if spills >= 8 { "8+".to_string() } else if spills >= 3 { "3-7".to_string() } else { spills.to_string() }));
     }
     if out.len() != expected_inputs.len() {
